@@ -45,6 +45,7 @@ def run(c, index, tier):
     if spec.name == "ConstraintKMeans":
         pass  # balanced_predictions stays False: the documented batch-dependent exception
     data = spec.data(ch, "A")
+    cfg = spec.finalize(cfg, data)
     g = ch.subseed("r", "global-seed")
     nops = ch.integer("w", 4, 14, "nops")
     c.scenario = {"class": spec.name, "config": {k: repr(v) for k, v in cfg.items()}, "data": data.desc, "ops": []}
